@@ -107,6 +107,17 @@ def len_derived(body, e, seen=None, depth=14):
             return True
         if e.callee in q.TRANSPARENT_CALLS and len(e.args) == 1:
             return len_derived(body, e.args[0], seen, depth - 1)
+        if nm in ("usize::div_ceil", "usize::min", "usize::max", "cmp::min", "cmp::max", "usize::saturating_add", "usize::saturating_sub", "usize::saturating_mul", "usize::next_multiple_of") and e.args:
+            return all(len_derived(body, a, seen, depth - 1) for a in e.args)
+        if e.t.get("resolved_local") and len(e.args) == 1 and getattr(e, "owner", None) is not None:
+            # a count accessor of the crate (`get_token_count` = tokens.len() as u32, ...): what it returns, on its argument
+            cb = e.owner.facts.body(e.t.get("resolved") or e.t.get("callee"), required=False)
+            if cb is not None and cb.arg_count == 1 and not any(cb.blocks[x]["term"]["k"] == "switch" for x in range(len(cb.blocks)) if not cb.blocks[x]["cleanup"]):
+                ds = cb.defs.get(0, [])
+                if len(ds) == 1 and not cb.partial_defs.get(0):
+                    bi, si, kind, node = ds[0]
+                    inner = cb.expr_of_rvalue(node["rv"]) if kind == "assign" else cb.expr_of_call(node)
+                    return len_derived(cb, inner, set(), depth - 2)
         return False
     if isinstance(e, Var):
         if e.is_arg or e.local in seen:
